@@ -301,8 +301,10 @@ fn equivalence(h: &H, idx: u64, rng: &mut Rng) {
         if args.iter().any(|(kk, _): &(String, Bind)| *kk == k) {
             continue;
         }
-        let v = value(rng, &k);
-        args.push((k, Bind::Lit(v)));
+        // mostly literal values; now and then a reference, which at the top level has no caller
+        // to resolve it (the names set by the same invocation are not its callers)
+        let b = if rng.chance(0.85) { Bind::Lit(value(rng, &k)) } else { bind(rng, &k, true) };
+        args.push((k, b));
     }
     let in_pipeline = rng.chance(0.5);
     let call = PStep {
@@ -316,6 +318,20 @@ fn equivalence(h: &H, idx: u64, rng: &mut Rng) {
         format!("addone | {call_text} | helmert x=7 s=300000")
     } else {
         call_text.clone()
+    };
+    // the same text in a free layout: blanks around the equals signs, runs of blanks, line breaks
+    let text = if rng.chance(0.3) {
+        let mut t = String::new();
+        for ch in text.chars() {
+            match ch {
+                '=' if rng.chance(0.4) => t += *rng.pick(&[" = ", " =", "= ", "  =  "]),
+                ' ' if rng.chance(0.3) => t += *rng.pick(&["  ", "\n", " \t ", "\n    "]),
+                _ => t.push(ch),
+            }
+        }
+        t
+    } else {
+        text
     };
     let desc = format!("{text}   {resources:?}");
     h.distinct(hash_str(&desc));
